@@ -61,6 +61,30 @@ impl<'a> Minimizer<'a> {
 /// one-step reductions, most aggressive first
 fn candidates(c: &Case) -> Vec<Case> {
     let mut out = Vec::new();
+    // drop the interlude of a T7 case, whole or in part
+    if !c.interlude.is_empty() {
+        let mut x = c.clone();
+        x.interlude.clear();
+        out.push(x);
+        for i in 0..c.interlude.len() {
+            let mut x = c.clone();
+            x.interlude.remove(i);
+            if !x.interlude.is_empty() {
+                out.push(x);
+            }
+        }
+        for (i, inner) in c.interlude.iter().enumerate() {
+            for j in (0..inner.ops.len()).rev() {
+                if inner.ops.len() > 1 {
+                    if let Some(y) = drop_op(inner, j) {
+                        let mut x = c.clone();
+                        x.interlude[i] = y;
+                        out.push(x);
+                    }
+                }
+            }
+        }
+    }
     // drop operations
     for i in (0..c.ops.len()).rev() {
         if c.ops.len() == 1 {
